@@ -128,6 +128,8 @@ func (se *Session) RunRound(r *sim.ParRound, raceLog string) []int16 {
 	}
 	before := fileSize(raceLog)
 	setup(n, r.Seed, r.Stay, r.Schedule)
+	prevYield := ecs.Verif.Yield
+	defer func() { ecs.Verif.Yield = prevYield }()
 	ecs.Verif.Yield = hook
 	var wg sync.WaitGroup
 	wg.Add(n)
@@ -143,11 +145,10 @@ func (se *Session) RunRound(r *sim.ParRound, raceLog string) []int16 {
 	sched, steps, switches, inLock, tryFails, stalls, deadlock := snapshot()
 	if deadlock {
 		se.violate("par.progress", "deadlock", "round with %d goroutines deadlocked: every unfinished goroutine waits for a mutex nobody releases (schedule length %d)", n, len(sched))
-		ecs.Verif.Yield = nil
 		return sched
 	}
 	wg.Wait()
-	ecs.Verif.Yield = nil
+	ecs.Verif.Yield = prevYield
 	se.Stats.Steps += steps
 	se.Stats.Switches += switches
 	se.Stats.InLock += inLock
